@@ -10,6 +10,7 @@ import (
 	"io"
 	"strconv"
 	"strings"
+	"syscall"
 	"sync/atomic"
 	"time"
 
@@ -373,6 +374,7 @@ func (h *H) decode(id string, rc rec, src io.Reader, rbuf int, rr *vlib.Rand, ma
 		return decOut{stuck: true}
 	}
 	h.res.CaseLog(id) // a panic on the decoder's internal goroutine kills the process
+	cpu0 := processCPU()
 	ch := make(chan decOut, 1)
 	go func() {
 		var o decOut
@@ -427,6 +429,14 @@ func (h *H) decode(id string, rc rec, src io.Reader, rbuf int, rr *vlib.Rand, ma
 	case <-t.C:
 		h.stucks++
 		cls := classifyStuck()
+		if cpu := processCPU() - cpu0; strings.Count(cls, "SPINNING") == 2 && cpu >= watchdog/2 {
+			// not a matter of the clock: the decoder's goroutine was found executing in
+			// both samples and the process has burnt more than a minute of processor
+			// time on an input of at most a few hundred kilobytes
+			h.res.Violatef("stuck:decoder-spinning", rc.with("classification", cls), "the decoder neither returns data nor an error: its goroutine is executing (not waiting) in two dumps 2 s apart and the process used %v of processor time on this one input", cpu.Round(time.Second))
+			h.abort = true
+			return decOut{stuck: true}
+		}
 		h.res.Inconcl(fmt.Sprintf("stuck:decoder case %s undecided after %v: %s", id, watchdog, cls))
 		h.res.Note("stuck_case_"+strconv.Itoa(h.stucks), rc.with("classification", cls))
 		if h.stucks >= 3 {
@@ -434,6 +444,14 @@ func (h *H) decode(id string, rc rec, src io.Reader, rbuf int, rr *vlib.Rand, ma
 		}
 		return decOut{stuck: true}
 	}
+}
+
+func processCPU() time.Duration {
+	var ru syscall.Rusage
+	if syscall.Getrusage(syscall.RUSAGE_SELF, &ru) != nil {
+		return 0
+	}
+	return time.Duration(ru.Utime.Nano() + ru.Stime.Nano())
 }
 
 // classifyStuck inspects the goroutine dump for the decoder's goroutines.
